@@ -4,8 +4,12 @@ Parts (each a family of work units):
   reorder  E2  per base grid: complete permutation x reversal-subset space when the grid is small, otherwise
                identity, every transposition of blocks and of connections, every single and double reversal,
                full reversal, reversed order, reorder(geo=) of the geometry and of a block-order variant
-  rename   E2  per base grid: every one-to-one map on a 4-name sub-universe + spare, whole-grid maps
-  seq      E1  breadth-first over {reorder, rename, write+read of the data file with the mesh inline / in a text MESH
+  rename   E2  per base grid: every one-to-one map on a 4-name sub-universe + spare, whole-grid maps; names that
+               fix_blockname() changes ('AB1 5' -> 'AB105') as keys and values: every one-to-one map on 3 present names +
+               2 such spares, alias-keyed and whole-grid maps x fix_blocknames default/True/False x t2grid/t2data route x
+               3 pre-states (geometry names / an unfixed name present / its fixed form present); every rename is followed
+               by neighbour lookups, delete_block of each of the first 6 blocks, and a full reversal
+  seq      E1  breadth-first over {reorder, rename (incl. to / from (a3,i2) names, fixing on and off), delete_block, write+read of the data file with the mesh inline / in a text MESH
                file / in the binary MESHA+MESHB pair} (mc/engine_seq.py)
   minc     E2  every composition of 10 tenths into 2..6 parts x 1,2,3 fracture-plane sets x 3 spacings x
                block selections of a 4-block grid (+ boundary / inactive block variants)
@@ -37,12 +41,20 @@ EXHAUSTIVE = True
 RULE = ('per base grid (6 geometries incl. a stepped-surface and a tilted one x 3 atmosphere types): all block permutations x connection permutations x reversal '
         'subsets when <= 4 blocks and <= 4 connections, else identity + all transpositions + all single/double/full '
         'reversals + geometry orders; all one-to-one rename maps on a 4-name sub-universe plus spare and whole-grid maps; '
+        'all one-to-one maps on 3 present names + 2 spares of the (a3,i2) form that fix_blockname changes, alias-keyed and whole-grid '
+        'such maps, x fix_blocknames (default, True, False) x (t2grid, t2data) route x 3 pre-states, each followed by neighbour '
+        'lookups, delete_block of each of the first 6 blocks and a full reversal; '
         'breadth-first compositions of {reorder, rename, file write+read}; all compositions of 10 tenths into 2..6 MINC '
         'fractions x planes x spacings x block selections; embed into every block. A case is non-trivial when it changes '
         'the grid (not the identity / empty map); distinct = distinct (part, base grid, arguments)')
 ASSUMPTIONS = [
     'contract: reorder gets complete lists; a pair is listed reversed only when the reversed name is not another connection',
-    'contract: rename maps are one-to-one and avoid unrenamed present blocks',
+    'contract: rename maps are one-to-one and avoid unrenamed present blocks - judged on the names after fix_blockname() when the '
+    'fixing is on; the resulting names stay distinct as TOUGH2 (a3,i2) names (no \'AB1 5\' beside \'AB105\')',
+    'with fix_blocknames on (the default) keys and values of the map are read through fix_blockname(): a key \'AB1 5\' names the block '
+    '\'AB105\' and not a block literally called \'AB1 5\'; a data file returns every name in its fixed form',
+    'after a rename each block\'s neighbour_name / connection_name (as unordered pairs) must name the pairs of the connection list; '
+    'delete_block removes the block and exactly the connections it takes part in',
     'the physical signature is read from the ordered lists and the objects\' names only; a state whose physics is right but '
     'whose C08 invariant (dict/list agreement) is broken is counted under gated_by_C08_invariant; in the composition part it is '
     'still expanded and what is found behind it carries |after=<step(clause)>; every rename is also followed by a full reversal',
@@ -57,9 +69,11 @@ ASSUMPTIONS = [
     'trusted: ref/gridmodel.py',
 ]
 BOUNDS = {
-    'quick': {'reorder': 'all 18 base grids', 'rename': 'all base grids', 'seq_depth': 3, 'minc_parts': '2..5 (255 vectors)',
+    'quick': {'reorder': 'all 18 base grids', 'rename': 'all base grids; fixable names: 3 pre-states x 3 fix settings x 2 routes', 'seq_depth': 3,
+              'seq_ops': 'up to 22 per state (incl. 6 with (a3,i2) names, fix on/off, delete_block)', 'minc_parts': '2..5 (255 vectors)',
               'minc_selections': 'all, 1 single, 1 pair', 'embed': 'all base grids'},
-    'thorough': {'reorder': 'all 18 base grids', 'rename': 'all base grids', 'seq_depth': 4, 'minc_parts': '2..6 (381 vectors)',
+    'thorough': {'reorder': 'all 18 base grids', 'rename': 'all base grids; fixable names: 3 pre-states x 3 fix settings x 2 routes', 'seq_depth': 4,
+                 'seq_ops': 'up to 22 per state (incl. 6 with (a3,i2) names, fix on/off, delete_block)', 'minc_parts': '2..6 (381 vectors)',
                  'minc_selections': 'all, each single, each pair (11)', 'embed': 'all base grids'},
 }
 TECHNIQUE = ('bounded exhaustive enumeration of permutations, reversal subsets, rename maps, MINC fraction vectors and embed '
